@@ -8,6 +8,7 @@ import Pymc.Model.Rendezvous
 import Pymc.Model.Readers
 import Pymc.Model.ServerSpec
 import Pymc.Model.Client
+import Pymc.Model.Stats
 import Pymc.Model.ApiSpec
 import Pymc.Model.Conn
 import Pymc.Model.Failover
@@ -52,6 +53,10 @@ def parsePairs (s : String) : Option (List (Nat × Nat)) :=
   (s.splitOn ",").mapM fun p => match p.splitOn ">" with
     | [a, b] => do pure ((← a.toNat?), (← b.toNat?))
     | _ => none
+
+def showSVal : Stats.SVal → String
+  | .int i => s!"int:{i}" | .bool true => "True" | .bool false => "False" | .raw b => "b:" ++ Bytes.toHex b
+  | .float a r => "f:" ++ Bytes.toHex a ++ ":" ++ Bytes.toHex r
 
 def showResult : Retrying.Result → String
   | .value v => s!"value:{v}"
@@ -398,7 +403,8 @@ def showRes : Client.Res → String
   | .dict kvs => "dict:{" ++ ";".intercalate (sortStrs (kvs.map fun (k, v) => showKey k ++ "=" ++ Bytes.toHex v)) ++ "}"
   | .casDict kvs => "casdict:{" ++ ";".intercalate (sortStrs (kvs.map fun (k, v, c) => showKey k ++ "=" ++ Bytes.toHex v ++ "/" ++ Bytes.toHex c)) ++ "}"
   | .keys ks => "keys:[" ++ ";".intercalate (ks.map showKey) ++ "]"
-  | .stats kvs => "stats:{" ++ ";".intercalate (sortStrs (kvs.map fun (k, v) => showKey k ++ "=" ++ Bytes.toHex v)) ++ "}"
+  -- `Client.stats` = the raw dict of `_fetch_cmd` followed by the type conversion (Pymc/Model/Stats.lean); the interpreter's digit limit is the default 4300
+  | .stats kvs => "stats:{" ++ ";".intercalate (sortStrs ((Stats.statsConvert 4300 kvs).map fun (k, v) => showKey k ++ "=" ++ showSVal v)) ++ "}"
 
 def showExcept (r : Except Exchange.Exc Client.Res) : String :=
   match r with
@@ -1022,6 +1028,15 @@ def handleCSerde (ws : List String) : Option String := do
   let (_, flags) := Serde.cserialize (dummyCodec plen zlen) thr pv
   pure s!"ok flags={flags} compressed={if flags &&& 8 ≠ 0 then 1 else 0}"
 
+/-- `statconv <lim> <key> <hex value>`: the converter `Client.stats` applies to that key, applied to that value -/
+def handleStatConv : List String → Option String
+  | [lim, k, v] => do
+    let l ← lim.toNat?
+    let key ← parseKey k
+    let b ← Bytes.ofHex v
+    pure s!"ok {(Stats.converterOf key).name} {showSVal (Stats.convert l (Stats.converterOf key) b)}"
+  | _ => none
+
 def handle (ws : List String) : String :=
   let r : Option String :=
     match ws with
@@ -1059,6 +1074,7 @@ def handle (ws : List String) : String :=
     | "batches" :: rest => handleBatches rest
     | "cserde" :: rest => handleCSerde rest
     | "pool.seq" :: rest => handlePoolSeq rest
+    | "statconv" :: rest => handleStatConv rest
     | "pool.validate" :: rest => handlePoolValidate rest
     | "pool.validate.timed" :: rest => handlePoolValidateTimed rest
     | _ => none
